@@ -3,6 +3,8 @@ from __future__ import annotations
 import json, math, os, subprocess, sys, warnings
 import numpy as np
 from .. import core, gen
+from . import c19_r4
+from . import c19_tas, c19_har, c19_lbp, c19_big
 
 ID = 'C19'
 LEVEL = 'proof'
@@ -13,18 +15,31 @@ RULE = ('corpus; cooccurence: integer images of 2-3 dimensions with 1..64 grey l
         'P <= 12 in full and a slice above) plus random codes for P <= 32, histograms of float/integer 2-D images x radii x '
         'point counts; Zernike: rotations by multiples of 90 degrees about the chosen centre and intensity scalings; '
         'moments vs the exact integer double sum; integral image vs the exact prefix sum for 10 dtypes. '
+        'Round 4: tas / pftas (2-D and 3-D, 11 dtypes, given or Otsu threshold, sparse images with isolated interior bright pixels) '
+        'bit for bit against the Lean model and against the counting specification (Lean tasCount and an independent numpy count); '
+        'haralick 14th feature against the second eigenvalue of the Lean model\'s matrix Q (numpy eigvals, squares compared at 1e-8), '
+        'return_mean / return_mean_ptp bit for bit against the Lean column mean / ptp of the real feature matrix; lbp_transform codes '
+        'against the Lean pipeline (C18 order-1 shift model, comparison, bit assembly, map); size-threshold stream (tag '
+        'size=threshold): 7 cases per run whose pair / pixel / bin counts cross 2^8, 2^15, 2^16, judged with the Lean model where '
+        'the driver is fast enough (cooccurence fold model, lbphist, tas, zernike selection) and with exact O(N) numpy oracles '
+        '(np.add.at pair counts, neighbour counts) whose agreement with the Lean specification is established on the small cases. '
         'Non-trivial = image not constant; distinct = distinct protocol line.')
 ASSUMPTIONS = ['cooccurence/haralick: pixel values are non-negative integers (the kernel raises on negatives); array sizes < 2^31',
                'haralick options: use_x_minus_y_variance / preserve_haralick_bug against the Lean Float formulas at 1e-9 and '
                'all other entries bit-identical; return_mean / return_mean_ptp = mean / mean ++ ptp over directions at 1e-12; '
-               'the 14th feature (eigenvalues) is not modelled, only that it leaves the first 13 unchanged',
+               'the 14th feature: Q is the Lean model\'s matrix, its eigenvalues are taken with numpy.linalg.eigvals (trusted) and the '
+               'square of the real output is compared with the second largest one at 1e-8, for images with at most 24 grey levels',
                'haralick: features whose textbook formula is 0/0 (correlation of a matrix with zero variance, information '
                'measure with zero marginal entropy) are not compared; an image without any counted pair raises (documented)',
                'haralick formulas are compared with the Lean Float functions at 1e-9 (log2/exp/sqrt involved); the '
                'invariances are compared bit-for-bit',
                'lbp: at least one pixel is considered (ignore_zeros on an all-zero image raises ValueError); 1 <= P <= 16 for '
                'histograms (2^P bins are enumerated by the implementation), P <= 32 for the code mapping; LBP sampling '
-               '(interpolate.shift) is not part of this check, only the mapping/histogram',
+               '(interpolate.shift, order 1) is compared through the Lean model of C18 for P <= 30 and finite pixel values (sines and cosines '
+               'are numpy\'s, handed to the model)',
+               'tas / pftas: the statement is silent about TAS, every disagreement is a model finding; images with at least one pixel; '
+               'integer pixel values below 2^53; for float images mu (numpy pairwise sum) and for pftas the standard deviation and the '
+               'Otsu threshold are taken from the real statements and handed to the model',
                'zernike: centre given with dyadic coordinates (exact rotation of the coordinate grid); tolerance 1e-9 '
                'relative to max(1, |z|); with the default centre of mass only power-of-two intensity scalings are used; '
                'the Lean Float model of the kernel (znlG) and of zernike_moments (zernikeAbs) is compared with the real '
@@ -35,6 +50,21 @@ ASSUMPTIONS = ['cooccurence/haralick: pixel values are non-negative integers (th
                'other float images at 1e-9 relative to the sum of absolute values']
 EXHAUSTIVE = {'thorough': True}
 TRUSTED = ['numpy', 'libm log2/exp in the Lean runtime within 1e-9']
+# round 4 (c19_r4.py): option paths of integral / moments, radial polynomial of the Zernike kernel
+RULE += (' Round 4: surf.integral with in_place / every integer and float output dtype / float->integer and integer->float '
+         'conversions / byte-swapped input and requested dtypes x 7 layouts; moments with normalize/normalise, cm=None, '
+         'convert_to_float off; the radial polynomial R_n^l of _zernike.znl for every (n, l) with n <= 24; a size-threshold '
+         'stream for integral / moments (257x256, 1x65537, 65537x1, 255x257 images: element counts and sums crossing 2^8, 2^15, '
+         '2^16, 2^24, 2^31, 2^32), judged by an exact O(N) Python oracle (prefix sums in Python integers / rational moments) that '
+         'is compared with the Lean specification on every small case (integral:spec-vs-python) - the Lean spec is quadratic.')
+ASSUMPTIONS += ['integral (round 4): float -> integer conversions only for values inside the target range (numpy cast otherwise '
+                'undefined); in_place is not asked on read-only arrays (the wrapper does not check the flag: observation in '
+                'the report, outside the statement); in_place on a byte-swapped array must raise ValueError and leave it alone',
+                'moments (round 4): normalize=True compared with the exact rational value of the formula of moments.py '
+                '(weights divided by their sum) at 1e-13 x condition number of the two weight sums x size; cases whose weight '
+                'sum is zero or whose condition number exceeds 1e3 are not compared (numpy divides by ~0)',
+                'zernike (round 4): _zernike.znl on one pixel (D=[d], A=[1], P=[1]) against the exact textbook radial '
+                'polynomial at 1e-12 x sum of absolute terms (pow is libm)']
 
 D2 = [(0, 1), (1, 1), (1, 0), (1, -1)]
 D3 = [(1, 0, 0), (1, 1, 0), (0, 1, 0), (1, -1, 0), (0, 0, 1), (1, 0, 1), (0, 1, 1), (1, 1, 1), (1, -1, 1),
@@ -248,6 +278,8 @@ def _haralick_options(mf, f, H, F, iz, dist, ndirs, same):
         out.append(dict(kind='property', key='haralick:option:return_mean_ptp', detail=dict(got=Hp.tolist())))
     if H14 is not None and (H14.shape != (ndirs, 14) or not same(H14[:, :13], H)):
         out.append(dict(kind='property', key='haralick:option:compute_14th_feature:first-13-changed', detail=dict(shape=list(H14.shape))))
+    out.extend(c19_har.f14_findings(f, [int(v) for v in f.ravel().tolist()], H14, iz, dist, ndirs))
+    out.extend(c19_har.mean_findings(H, Hm, Hp))
     return out
 
 
@@ -359,6 +391,7 @@ def _eval_lbp(case):
         mh = core.ints(drv['hist'])
         if mh != [int(x) for x in h]:
             findings.append(dict(kind='model', key='lbp:histogram-model', detail=dict(got=[int(x) for x in h][:40], model=mh[:40])))
+        findings.extend(c19_lbp.sampling_findings(im, P, R, iz, cl))
     return dict(findings=findings, nontrivial=bool(len(set(cl)) > 1), sig=json.dumps(case, sort_keys=True), tags=tags)
 
 
@@ -605,6 +638,9 @@ def _eval_integral(case):
             findings.append(dict(kind='property', key='integral:prefix-sum', detail=dict(pos=[k // w, k % w], got=got[k], want=spec[k])))
         elif core.ints(drv['model']) != got:
             findings.append(dict(kind='model', key='integral:model', detail={}))
+        elif core.ints(drv.get('machine', '')) != got:
+            # the recurrence run in the dtype's own arithmetic (MInt: every + and - wraps), C19_integral_machine_arithmetic
+            findings.append(dict(kind='model', key='integral:machine-model', detail={}))
     elif odt.kind == 'f':
         conv = f.astype(odt).astype(np.float64)
         exact = [[math.fsum(float(conv[a, b]) for a in range(i + 1) for b in range(j + 1)) for j in range(w)] for i in range(h)]
@@ -627,7 +663,8 @@ def _eval_integral(case):
 
 
 EVAL = dict(cooc=_eval_cooc, haralick=_eval_haralick, lbpmap=_eval_lbpmap, lbp=_eval_lbp, zernike=_eval_zernike,
-            moments=_eval_moments, integral=_eval_integral)
+            moments=_eval_moments, integral=_eval_integral, tas=c19_tas.eval_tas, big=c19_big.eval_big)
+EVAL.update(c19_r4.EVAL)
 
 
 def evaluate(cases):
@@ -771,12 +808,20 @@ def cases(rng, tier):
             lo, hi = gen.dt_range(dtype)
             data = [max(lo, min(hi, v)) for v in data]
         out.append(dict(kind='integral', shape=shape, dtype=dtype, data=data, out=outdt, layout=rng.choice(gen.LAYOUTS)))
+    out.extend(c19_r4.cases(rng, N))
+    # --- round 4: tas / pftas (own module; drawn last so that the earlier streams are unchanged)
+    out.extend(c19_tas.cases(rng, tier))
+    # --- round 4: size-threshold stream (counts crossing 2^8 / 2^15 / 2^16)
+    out.extend(c19_big.cases(rng, tier))
     return out
 
 
 def shrink(case):
     k = case.get('kind')
-    if k in ('cooc', 'haralick', 'moments', 'integral', 'lbp', 'zernike'):
+    if k in c19_r4.EVAL:
+        yield from c19_r4.shrink(case)
+        return
+    if k in ('cooc', 'haralick', 'moments', 'integral', 'lbp', 'zernike', 'tas'):
         shape, data = case['shape'], case['data']
         A = np.array(data, dtype=object).reshape(shape)
         for ax in range(len(shape)):
